@@ -233,6 +233,7 @@ fn get_swap_transactions<C: ContentAddrStore>(state: &UnsealedState<C>) -> Vec<T
         .iter()
         .cloned()
         .filter_map(|tx| {
+            (tx.kind == TxKind::Swap).then_some(())?; // only swap transactions are swap requests
             (!tx.outputs.is_empty()).then_some(())?; // ensure not empty
             state.coins.get_coin(tx.output_coinid(0))?; // ensure that first output is unspent
             let pool_key = PoolKey::from_bytes(&tx.data)?; // ensure that data contains a pool key
